@@ -184,8 +184,9 @@ Qed.
 Lemma target_list_rest_ok : forall fuel s, (length s < fuel)%nat -> le_res (length s) (target_list_rest fuel s).
 Proof.
   induction fuel as [|f IH]; intros s Hf; [lia|]. cbn [target_list_rest].
-  pose proof (space1_lt s) as H1. destruct (space1 s) as [u r| | | |]; cbn [res_ok] in *; try lia.
-  pose proof (target_string_lt r) as H2. destruct (target_string r) as [v r'| | | |]; cbn [res_ok] in *; try lia.
+  pose proof (multispace0_len s) as H1.
+  pose proof (target_string_lt (multispace0 s)) as H2.
+  destruct (target_string (multispace0 s)) as [v r'| | | |]; cbn [res_ok] in *; try lia.
   eapply res_ok_bind; [apply IH; lia|]. intros vs r'' H3. cbn beta in *. cbn [res_ok]. lia.
 Qed.
 
